@@ -744,11 +744,22 @@ def api_sourcecatalog(view, cfg):
 PROFILE_RADII = np.array([0.0, 1.0, 2.0, 3.5, 5.0, 7.0, 9.0, 12.0])
 
 
+def _profile_centre(view, isrc):
+    """A source position, or ('edge'): a centre whose largest aperture touches the last column
+    and the last row of the original frame (still inside it: footprint <= frame)."""
+    sc = view.scene
+    if isrc == 'edge':
+        ny, nx = np.asarray(sc.img).shape
+        rmax = float(PROFILE_RADII[-1])
+        return view.xy(nx - 0.5 - rmax - 0.25, ny - 0.5 - rmax - 0.1)
+    return view.xy(sc.pos[isrc, 0], sc.pos[isrc, 1])
+
+
 def api_radial_profile(view, cfg):
     from photutils.profiles import RadialProfile
     isrc, method = cfg
     sc = view.scene
-    x, y = view.xy(sc.pos[isrc, 0], sc.pos[isrc, 1])
+    x, y = _profile_centre(view, isrc)
     kw = dict(method=method)
     if method == 'subpixel':
         kw['subpixels'] = 3
@@ -780,7 +791,7 @@ def api_curve_of_growth(view, cfg):
     from photutils.profiles import CurveOfGrowth
     isrc, method = cfg
     sc = view.scene
-    x, y = view.xy(sc.pos[isrc, 0], sc.pos[isrc, 1])
+    x, y = _profile_centre(view, isrc)
     kw = dict(method=method)
     if method == 'subpixel':
         kw['subpixels'] = 3
@@ -893,7 +904,8 @@ APIS = {
     'detect_sources': (api_detect, ['c8', 'c4mask', 'thrimg'], 'S'),
     'deblend_sources': (api_deblend, ['exponential', 'linear', 'sinh'], 'S'),
     'SourceCatalog': (api_sourcecatalog, ['plain', 'full', 'localbkg'], 'ST'),
-    'RadialProfile': (api_radial_profile, [(0, 'exact'), (2, 'center'), (4, 'subpixel')], 'ST'),
+    'RadialProfile': (api_radial_profile, [(0, 'exact'), (2, 'center'), (4, 'subpixel'), ('edge', 'exact'),
+                                           ('edge', 'center')], 'ST'),
     'CurveOfGrowth': (api_curve_of_growth, [(1, 'exact'), (3, 'center'), (5, 'subpixel')], 'ST'),
     'make_model_image': (api_make_model_image, ['gauss2d', 'prf_bbox', 'prf_over'], 'S'),
     'centroid_sources': (api_centroid_sources, ['com', 'quadratic', 'g1', 'g2'], 'ST'),
